@@ -219,6 +219,7 @@ def run_fuzz(chk, tier):
     verdicts, per_target, killed_by_key, inconsistent_by_key, done = {}, {}, {}, {}, None
     overflow_reports, structured = 0, 0
     order_family, copy_hist, n_order, n_copy = {}, {}, 0, 0
+    tofkey_family, n_tofkeys = {}, 0
     for l in open(resfile, errors="replace"):
         t = l.split()
         if not t:
@@ -234,6 +235,9 @@ def run_fuzz(chk, tier):
             if "order-family" in t:
                 k = "%s:%s" % (t[1], t[3])
                 order_family[k] = order_family.get(k, 0) + 1
+            if "tofkey-family" in t:
+                k = t[3] if not (t[3] == "rejected" and len(t) > 4) else "rejected-" + t[4]
+                tofkey_family[k] = tofkey_family.get(k, 0) + 1
             if t[1] == "copy" and len(t) > 5:
                 k = "%s | %s" % (t[5], " ".join(t[3:5]))
                 copy_hist[k] = copy_hist.get(k, 0) + 1
@@ -255,10 +259,15 @@ def run_fuzz(chk, tier):
             structured = int(m.group(1)) if m else 0
             m = re.search(r"order=(\d+) copy=(\d+)", l)
             n_order, n_copy = (int(m.group(1)), int(m.group(2))) if m else (0, 0)
+            m = re.search(r"tofkeys=(\d+)", l)
+            n_tofkeys = int(m.group(1)) if m else 0
     if done is None:
         chk.violation("fuzz-incomplete", "C17 fuzz harness did not finish", r.stdout[-2000:], found_input=False)
     elif n_order < 100 or n_copy < 100 or not any(k.endswith(":accepted") for k in order_family) or not any("accepted" in k for k in copy_hist):
         chk.violation("fuzz-family-missing", "C17 fuzz harness: the key-order family (%d inputs) or the copy histories (%d) did not run, or none was accepted" % (n_order, n_copy),
+                      done, found_input=False)
+    if done is not None and (n_tofkeys < 500 or tofkey_family.get("accepted", 0) < 50 or not any(k.startswith("rejected") for k in tofkey_family)):
+        chk.violation("fuzz-family-missing", "C17 fuzz harness: the TOF-key family (%d inputs, verdicts %s) did not run, or none was accepted / none rejected" % (n_tofkeys, tofkey_family),
                       done, found_input=False)
     for key, cases in sorted(killed_by_key.items()):
         target, inputfile, err = min(cases, key=lambda c: os.path.getsize(c[1]) if os.path.exists(c[1]) else 1 << 30)
@@ -282,6 +291,7 @@ def run_fuzz(chk, tier):
                 fuzz_structured_one_field_inconsistent_inputs=structured,
                 fuzz_key_order_inputs=n_order, fuzz_key_order_verdicts=order_family,
                 fuzz_copy_histories=n_copy, fuzz_copy_history_classes=copy_hist,
+                fuzz_tof_key_inputs=n_tofkeys, fuzz_tof_key_verdicts=tofkey_family,
                 fuzz_instrumented_sources=INSTRUMENTED)
 
 
@@ -325,6 +335,10 @@ def compare(op, impl, model):
     accepts => model accepts with the same segment range; code `err` where the model accepts is allowed."""
     if impl == model:
         return True
+    if op.startswith("hdr pdfs "):
+        # same reason: the geometry checks of the ProjDataInfo constructor (after set_tof_mash_factor, before the final TOF check)
+        # are not modelled; everything else is exact
+        return impl == "err" and (model.startswith("ok ") or model == "errtof")
     return op.startswith("pdfsseg ") and impl == "err" and model.startswith("ok ")
 
 
@@ -371,6 +385,13 @@ def main(tier, replay):
         "first pixel offsets, per-frame and per-window keys, image scaling factors, data offsets, index nesting level, data type descriptions; sometimes 'type of data') "
         "in the writer's order and re-ordered (a count key behind the lines it sizes, count keys swapped, all counts first / last, one table line moved, shuffled), answer = "
         "rej | err | every modelled member of the header object, against the Lean model of the count-key call-backs and post_processing; "
+        "`hdr pdfs`: real InterfilePDFSHeader::parse on the library's own projection-data headers of TOF-CAPABLE scanners (a generated scanner with timing keys in the header, "
+        "and the GE Discovery 690 recognised by name; each with non-TOF data = 4-D header and TOF data = 5-D header) with TOF keys inserted / moved / removed at ANY position "
+        "('TOF mashing factor' and '%TOF mashing factor' with values 0, 1, divisors, the scanner's bin count, above it, negative; '(Maximum) number of (unmashed) TOF time bins', "
+        "bin size and timing resolution in both spellings with matching, contradicting, zero and negative values; 'TOF bin order' lists), alone and combined, and with the "
+        "size-giving lines (number of dimensions, matrix size / axis label incl. [5], ring differences) re-ordered; answer = rej | err | errmash | erreven | errtof | ok <num_timing_poss, "
+        "TOF bins and mashing factor of the geometry, segments, views, bins, axial positions> against the Lean model of find_storage_order / resize_segments_and_set / the size part "
+        "of post_processing / ProjDataInfo::set_tof_mash_factor (exact; the code may still error() in the geometry checks of the ProjDataInfo constructor where the model accepts); "
         "`po`: histories of new / copy constructor / operator= / parse / parameter_info / delete on a concrete ParsingObject (real base class) against the Lean heap model; "
         "distinct = distinct operation lines. Oracle on the implementation: accepted image header => every table of the header object has the announced length "
         "(dimensions, data sets = time frames x data types, frames, windows, data types, one scaling factor per plane); re-ordered header accepted => same members as in the "
@@ -382,7 +403,8 @@ def main(tier, replay):
         "(add_alias_key calls with literal arguments, scanned at run time: an InterfilePDFSHeader header using any spelling of the alias parses to the same object "
         "as the one using the target keyword, and the value is used; other call sites are listed in coverage.alias_sites), vectorised keys of all eight types "
         "(int, unsigned, unsigned long, float, double, string, list of ints, list of doubles) at index 0 / negative / in range / size+1 / beyond: stored at the index "
-        "given and nothing else changed, or error; accepted projection-data header => number of segments = declared count = length of every list given; "
+        "given and nothing else changed, or error; accepted projection-data header => number of segments = declared count = length of every list given; accepted projection-data header of a TOF-capable scanner (`hdr pdfs`) => "
+        "the geometry has exactly the TOF bins the header declares (1 for 4-D, 'matrix size [5]' for 5-D) and the axial positions / views / bins of its 'matrix size' lines; "
         "KeyParser round trip on random printable values. "
         "Part 2 (fuzz_* keys): KeyParser::parse, read_interfile_image, read_interfile_dynamic_image, read_interfile_PDFS (PET, SPECT, Siemens), MultipleDataSetHeader with the anchored sources "
         "compiled with -fsanitize=address,undefined: every seed header truncated at every line (with/without newline), every single line deleted, truncation at sampled bytes, "
@@ -394,6 +416,14 @@ def main(tier, replay):
         "key-order family (fuzz_key_order_*): the library's own image (also with energy windows and a time frame), dynamic image, PARAMETRIC image (read_interfile_parametric_image) "
         "and PET projection-data headers with their size-giving lines re-ordered: rejected, or the header object has every table at the announced length, its size-giving "
         "members equal those of the writer's order, and the reader returns the same voxel data (checksum) as for the writer's order; "
+        "TOF-key family (fuzz_tof_key_*): the library's own projection-data headers of TOF-capable scanners (generated scanner and GE Discovery 690, 4-D non-TOF and 5-D TOF, small data "
+        "files) with every TOF line of the header removed / moved to every position, mashing-factor lines (both spellings) inserted at EVERY position, scanner timing keys and bin-order "
+        "lists at sampled positions (all positions in the thorough tier), pairs of such lines, the structured one-field family and generic mutations of these headers; "
+        "UNIVERSAL SIZE ORACLE on every accepted `pdfs` input (any target seed, clean text or not): the returned ProjDataFromStream has exactly the TOF bins that the header object "
+        "derived from the declared dimensions (num_timing_poss) and sum(axial positions) x views x tangential positions x TOF bins of the 'matrix size' lines "
+        "({pdfs:tof-bins-vs-declared-dimensions}, {pdfs:object-size-vs-header}); clean 4-D text => 1 TOF bin; all segments x TOF bins are read under ASan, and an object that needs more "
+        "bytes than the data file has must have been refused at parse time or refuse the read with error() (reading without error = inconsistent); a 4-D header without its "
+        "mashing-factor line must be accepted; "
         "copy histories (fuzz_copy_*): 17 concrete data processors / priors / projector pairs / forward projector / bin normalisation via copy constructor and operator=, every "
         "registered Shape3D, BackProjectorByBin and ProjMatrixByBin via clone(): object built from its own text with other numbers and printed -> copied -> original re-parsed with "
         "other numbers / destroyed / kept -> the copy prints the values it was copied with, parsing into the copy leaves the original alone, the copy's text parses back to itself; "
@@ -416,10 +446,15 @@ def main(tier, replay):
         "reconstructions) and the registered name 'None' (a null object) are listed in coverage.registered_classes, not failed",
         "aliases: add_alias_key call sites with non-literal arguments or in classes that are not compiled / have no driver (CListModeDataROOT: HAVE_CERN_ROOT off) are "
         "listed in coverage.alias_sites, not driven",
+        "`hdr pdfs` model: the scanner named by 'originating system' enters as a parameter (known?, its three timing values: Scanner::get_scanner_from_name is not modelled); the timing "
+        "keys carry integer values (only their sign is used); keys outside the model (type of data, number format, PET data type, the other scanner keys ...) keep the values the "
+        "library wrote; 'Scanner geometry' stays Cylindrical in the generated texts; the theorem C17_pdfs_accepted_tof_consistent ties the TOF bins of the geometry to the MEMBER "
+        "num_timing_poss for every text; that this member equals what the final 'number of dimensions' / 'matrix size [5]' lines say is find_storage_order for texts with each size "
+        "key once, and oracle-only (part 2, clean texts) otherwise",
         "per-segment model: sums of ring differences are small (no int overflow, exact as float); the geometry checks of the ProjDataInfo constructors are not modelled",
         "`hdr` ops: float-valued keys carry integer values (the model keeps them as integers), data offsets are small non-negative, 'version of keys' is never STIR3.0, keys the "
         "model does not have (originating system, radionuclide, patient position, dates, bed position, calibration factor, quantification units) do not occur; the projection-data "
-        "header with re-ordered keys is covered by the part-2 oracle only (no model of find_storage_order under re-ordering); 'type of data' keeps its place in the value-equality "
+        "header with re-ordered keys is modelled as far as the sizes go (`hdr pdfs`), the rest is covered by the part-2 oracle; 'type of data' keeps its place in the value-equality "
         "oracle (keys that exist only after 'type of data := PET' are unknown keywords before it: warning only, compared with the model but not with the writer's order)",
         "`po` model: the KeyParser pointers of one parser are abstracted to ONE owner object (initialise_keymap registers all keys with members of `this`); nested parsing objects "
         "(shared_ptr members, shared between a copy and its original) are covered by the part-2 histories only; Scanner is not a ParsingObject (no copy history)",
